@@ -203,6 +203,24 @@ PROPERTIES = {
                         "axioms ax_from_const, ax_from_src, ax_cmp_const (conversions from the I9F23 constants are lossless, cross-type comparison is exact: C04 / C03)",
                         "log2_inner contract (result >= 0 for operand >= 1) assumed in Verus, covered for I9F23 by kani transc::log2_i9f23"],
     },
+    "C13": {
+        "level": "proof",
+        "verus_units": ["sqrtacc"],
+        "kani_thorough": ["transc::sqrt_acc_i9f23_grid", "transc::sqrt_acc_i32f32_pow2"],
+        "explanation": "Verus, generic over every supported pair (S, D): the real sqrt is verified against the integer bracket "
+                       "(r - 4)^2 <= X * 2^F <= (r + 4)^2 (r, X bit patterns of the result and of the operand in D, i.e. |r - sqrt(x)| <= 4 ulp), "
+                       "sqrt(0) == 0 and sqrt(1) == 1 exactly, and Err only for a negative operand or an operand below one whose reciprocal is not "
+                       "representable.  Proof: loop invariant `l >= isqrt(N)` and `(l - isqrt(N)) * 2^i <= l_0 or l - isqrt(N) <= 1` (the distance to "
+                       "the integer root at least halves per step), so after frac_nbits + int_nbits steps l is isqrt(N) or isqrt(N) + 1; the "
+                       "reciprocal path is carried through floor(2^2F / x) and floor(2^2F / l) by a bracket lemma (nonlinear arithmetic, no admit).  "
+                       "Kani (thorough, bounded grids) re-checks the bracket bit-precisely on I9F23 (x = k/8) and I32F32 (powers of two)",
+        "bounded_parts": ["the Kani twins cover operand grids only (256 resp. 31 operands); they are counterexample generators, the proof is the Verus unit"],
+        "assumptions": ["trait-level contracts of Fixed (checked_div, `/`, `+`, from_num, frac_nbits, int_nbits) are the statements proved for the inherent methods "
+                        "in units nofrac / fracops and forwarded in traitfwd",
+                        "axioms ax_from_src, ax_cmp_const (From<S> for D is value preserving, comparison with the I9F23 constants is exact: C04 / C03)",
+                        "the true square root enters only through the integer bracket (r - 4)^2 <= X * 2^F <= (r + 4)^2, which is equivalent to "
+                        "|r - sqrt(X * 2^F)| <= 4 over the reals"],
+    },
     "C17": {
         "level": "proof",
         "verus_units": ["transc", "trig"],
